@@ -140,7 +140,9 @@ def tlc(module, cfg, workers=1, env=None, timeout=900, extra=(), metadir=None, h
     """Run TLC on spec/<module>.tla with spec/<cfg>.  Returns TlcResult."""
     if metadir is None:
         metadir = os.path.join(WORK_ROOT, 'meta-%d-%d' % (os.getpid(), random.getrandbits(40)))
-    cmd = ['java', '-XX:+UseParallelGC', '-Xss512m', '-Xmx' + heap, '-Dfile.encoding=UTF-8', '-cp', JAR, 'tlc2.TLC',
+    os.makedirs(metadir, exist_ok=True)
+    # (TLC leaves a tlc-* entry in java.io.tmpdir on every run: keep them with the metadata, which is removed below)
+    cmd = ['java', '-XX:+UseParallelGC', '-Xss512m', '-Xmx' + heap, '-Dfile.encoding=UTF-8', '-Djava.io.tmpdir=' + metadir, '-cp', JAR, 'tlc2.TLC',
            '-workers', str(workers), '-metadir', metadir, '-noGenerateSpecTE', '-nowarning',
            '-config', cfg] + list(extra) + [module]
     e = dict(os.environ)
